@@ -193,6 +193,14 @@ impl Property for C18 {
                     case.opts[i] = o;
                 }
             }
+            2 if rng.chance(1, 4) => {
+                // the dot-call shorthand with dots too many in front of a name that exists
+                let e = *rng.pick(&["(..size)", "(...size)", "(..string?)", "(..len)", "(map .arr (..size))", "(. .size)"]);
+                let o = fresh_position(rng, e);
+                needs.push(o.last().unwrap().clone());
+                replace_or_add(&mut case, o);
+                kind = "unknown-function";
+            }
             2 => {
                 let name = format!("zz_nope_{}", rng.below(100));
                 let o = fresh_position(rng, &format!("({name} . 1)"));
@@ -395,9 +403,19 @@ impl Property for C18 {
                     "&ended-at-char-number",
                     "(stringify &index)",
                 ]);
-                let o = vec!["--set".to_string(), format!("ev{}={v}", rng.below(10))];
-                needs.push(o[1].clone());
-                case.opts.push(o);
+                if rng.chance(1, 4) {
+                    // ... or a name that an earlier --set defines: definitions do not see
+                    // each other when they are calculated
+                    let (d, u) = if rng.chance(1, 2) { ("evb=1", "evu=:evb") } else { ("@evm=5", "evu=(* 2 @evm)") };
+                    case.opts.push(vec!["--set".into(), d.into()]);
+                    case.opts.push(vec!["--set".into(), u.into()]);
+                    needs.push(d.into());
+                    needs.push(u.into());
+                } else {
+                    let o = vec!["--set".to_string(), format!("ev{}={v}", rng.below(10))];
+                    needs.push(o[1].clone());
+                    case.opts.push(o);
+                }
                 if rng.chance(1, 2) && !has_opt(&case.opts, "--regular-expression-cache-size") {
                     case.opts.push(vec![format!("--regular-expression-cache-size={}", rng.range(1, 8))]);
                 }
